@@ -1,6 +1,7 @@
 pub mod bind;
 pub mod c01;
 pub mod c02;
+pub mod c04;
 pub mod c05;
 pub mod c06;
 pub mod c07;
@@ -23,6 +24,7 @@ pub fn run(id: &str, tier: Tier) -> Option<Report> {
     Some(match id {
         "C01" => c01::run(tier),
         "C02" => c02::run(tier),
+        "C04" => c04::run(tier),
         "C05" => c05::run(tier),
         "C06" => {
             let mut rep = Report::new("C06", "model_checking", tier);
@@ -83,6 +85,7 @@ pub fn replay(id: &str, v: &serde_json::Value) -> i32 {
     match id {
         "C01" => c01::replay(v),
         "C02" => c02::replay(v),
+        "C04" => c04::replay(v),
         "C05" => c05::replay(v),
         "C06" if v["part"] == "binding" => bind::replay(v),
         "C07" if v["part"] == "binding" => bind::replay(v),
